@@ -35,37 +35,36 @@ BlAt(bpms, W, num, den) == bpms[SegOf(bpms, W, num, den)].bl
 RowTicks(bpms, off, m, r, n) == BeatToTicks(bpms, off, 4 * m + (4 * r) \div n, (4 * r) % n, n)
 RowBl(bpms, m, r, n) == BlAt(bpms, 4 * m + (4 * r) \div n, (4 * r) % n, n)
 
-(* all cells of a chart: <<m, r, n, c, sym>> with sym # "0", in file order *)
-Cells(ch) ==
-    { <<m, r, c>> \in UNION { { <<m, r, c>> : r \in 1..Len(ch.measures[m]), c \in 1..ch.keys } : m \in DOMAIN ch.measures } :
-        c <= Len(ch.measures[m][r]) /\ ch.measures[m][r][c] # "0" }
-Sym(ch, x) == ch.measures[x[1]][x[2]][x[3]]
-CellTicks(f, ch, x) == RowTicks(f.bpms, f.off, x[1] - 1, x[2] - 1, Len(ch.measures[x[1]]))
-CellBl(f, ch, x) == RowBl(f.bpms, x[1] - 1, x[2] - 1, Len(ch.measures[x[1]]))
-Before(x, y) == x[1] < y[1] \/ (x[1] = y[1] /\ x[2] < y[2])
+(* the non-"0" cells of a chart are given sparsely by the lexer, in file order:                  *)
+(*   ch.cells : seq of [m, r, c (all 1-based), n |-> rows of that measure, s |-> symbol]          *)
+(*   ch.rows  : seq of row counts per measure;  ch.widths / ch.symbols : distinct row widths / symbols used *)
+Cells(ch) == DOMAIN ch.cells
+Sym(ch, x) == ch.cells[x].s
+CellTicks(f, ch, x) == RowTicks(f.bpms, f.off, ch.cells[x].m - 1, ch.cells[x].r - 1, ch.cells[x].n)
+CellBl(f, ch, x) == RowBl(f.bpms, ch.cells[x].m - 1, ch.cells[x].r - 1, ch.cells[x].n)
 
-Simple(f, ch, s) == { [t |-> CellTicks(f, ch, x), c |-> x[3] - 1, bl |-> CellBl(f, ch, x)] : x \in { x \in Cells(ch) : Sym(ch, x) = s } }
+Simple(f, ch, s) == { [t |-> CellTicks(f, ch, x), c |-> ch.cells[x].c - 1, bl |-> CellBl(f, ch, x), id |-> x] : x \in { x \in Cells(ch) : Sym(ch, x) = s } }
 
 (* a tail "3" closes the open hold of its column, else the open roll: i.e. the latest unclosed head before it *)
-Heads(ch, c) == { x \in Cells(ch) : x[3] = c /\ Sym(ch, x) \in {"2", "4"} }
-Tails(ch, c) == { x \in Cells(ch) : x[3] = c /\ Sym(ch, x) = "3" }
+Heads(ch, c) == { x \in Cells(ch) : ch.cells[x].c = c /\ Sym(ch, x) \in {"2", "4"} }
+Tails(ch, c) == { x \in Cells(ch) : ch.cells[x].c = c /\ Sym(ch, x) = "3" }
 (* the code keeps one stack per kind and closes the hold stack's top first when it is open *)
 RECURSIVE Pair(_, _, _, _, _)
-(* evs: events of one column in file order; oh / or: open hold / roll head or <<>> *)
+(* evs: events of one column in file order; oh / orl: index of the open hold / roll head, 0 = none *)
 Pair(evs, oh, orl, acc, ch) ==
-    IF evs = <<>> THEN [pairs |-> acc, dangling |-> (oh # <<>> \/ orl # <<>>), orphan |-> FALSE]
+    IF evs = <<>> THEN [pairs |-> acc, dangling |-> (oh # 0 \/ orl # 0), orphan |-> FALSE]
     ELSE LET x == Head(evs) s == Sym(ch, x) IN
          IF s = "2" THEN Pair(Tail(evs), x, orl, acc, ch)
          ELSE IF s = "4" THEN Pair(Tail(evs), oh, x, acc, ch)
-         ELSE IF oh # <<>> THEN Pair(Tail(evs), <<>>, orl, acc \cup { <<"hold", oh, x>> }, ch)
-         ELSE IF orl # <<>> THEN Pair(Tail(evs), oh, <<>>, acc \cup { <<"roll", orl, x>> }, ch)
+         ELSE IF oh # 0 THEN Pair(Tail(evs), 0, orl, acc \cup { <<"hold", oh, x>> }, ch)
+         ELSE IF orl # 0 THEN Pair(Tail(evs), oh, 0, acc \cup { <<"roll", orl, x>> }, ch)
          ELSE [pairs |-> acc, dangling |-> FALSE, orphan |-> TRUE]
 RECURSIVE Ordered(_)
-Ordered(S) == IF S = {} THEN <<>> ELSE LET x == CHOOSE x \in S : \A y \in S : x = y \/ Before(x, y) IN <<x>> \o Ordered(S \ {x})
-ColPairs(ch, c) == Pair(Ordered(Heads(ch, c) \cup Tails(ch, c)), <<>>, <<>>, {}, ch)
+Ordered(S) == IF S = {} THEN <<>> ELSE LET x == CHOOSE x \in S : \A y \in S : x <= y IN <<x>> \o Ordered(S \ {x})
+ColPairs(ch, c) == Pair(Ordered(Heads(ch, c) \cup Tails(ch, c)), 0, 0, {}, ch)
 Long(f, ch, kind) ==
     UNION { { [t |-> CellTicks(f, ch, p[2]), c |-> c - 1, n |-> CellTicks(f, ch, p[3]) - CellTicks(f, ch, p[2]),
-               bl |-> Max2(CellBl(f, ch, p[2]), CellBl(f, ch, p[3]))] : p \in { p \in ColPairs(ch, c).pairs : p[1] = kind } }
+               bl |-> Max2(CellBl(f, ch, p[2]), CellBl(f, ch, p[3])), id |-> p[2]] : p \in { p \in ColPairs(ch, c).pairs : p[1] = kind } }
             : c \in 1..ch.keys }
 Balanced(ch) == \A c \in 1..ch.keys : ~ColPairs(ch, c).dangling /\ ~ColPairs(ch, c).orphan
 
@@ -110,11 +109,11 @@ WellFormed(f) ==
       header_tags |-> \A i \in DOMAIN HeaderTags :
                          Cardinality({ j \in DOMAIN f.hdr : f.hdr[j].tag = HeaderTags[i] }) = 1,
       notes_fields |-> \A i \in DOMAIN f.charts : f.charts[i].nfields = 6 /\ f.charts[i].keys > 0,
-      rows_per_measure |-> \A i \in DOMAIN f.charts : \A m \in DOMAIN f.charts[i].measures :
-                              Len(f.charts[i].measures[m]) > 0 /\ Len(f.charts[i].measures[m]) % 4 = 0,
-      row_width |-> \A i \in DOMAIN f.charts : \A m \in DOMAIN f.charts[i].measures : \A r \in DOMAIN f.charts[i].measures[m] :
-                       /\ Len(f.charts[i].measures[m][r]) = f.charts[i].keys
-                       /\ \A c \in DOMAIN f.charts[i].measures[m][r] : f.charts[i].measures[m][r][c] \in Alphabet,
+      rows_per_measure |-> \A i \in DOMAIN f.charts : \A m \in DOMAIN f.charts[i].rows :
+                              f.charts[i].rows[m] > 0 /\ f.charts[i].rows[m] % 4 = 0,
+      row_width |-> \A i \in DOMAIN f.charts :
+                       /\ \A w \in DOMAIN f.charts[i].widths : f.charts[i].widths[w] = f.charts[i].keys
+                       /\ \A q \in DOMAIN f.charts[i].symbols : f.charts[i].symbols[q] \in Alphabet,
       balanced |-> \A i \in DOMAIN f.charts : Balanced(f.charts[i]) ]
 
 (* all tempo changes of the file on measure lines *)
